@@ -37,7 +37,9 @@ var ErrNamingFormat = errors.New("不支持的命名样式")
 // 理论上甚至可以使用分隔符如 go#Designer，但还是要遵循操作系统的文件命名规范。
 // 注意：FileNamingFormat 基于蛇式或驼峰。
 func FileNamingFormat(format, content string) (string, error) {
-	upperFormat := strings.ToUpper(format)
+	// 只对 ASCII 字母做大写映射，保证下标与原字符串的字节偏移一致
+	// （strings.ToUpper 会改变某些非 ASCII 字符的 UTF-8 长度）。
+	upperFormat := asciiUpper(format)
 	indexGo := strings.Index(upperFormat, flagGo)
 	indexDesigner := strings.Index(upperFormat, flagDesigner)
 	if indexGo < 0 || indexDesigner < 0 || indexGo > indexDesigner {
@@ -73,6 +75,16 @@ func FileNamingFormat(format, content string) (string, error) {
 	formatStyle.through = through
 	formatStyle.after = after
 	return doFormat(formatStyle, content)
+}
+
+func asciiUpper(s string) string {
+	b := []byte(s)
+	for i, c := range b {
+		if 'a' <= c && c <= 'z' {
+			b[i] = c - 'a' + 'A'
+		}
+	}
+	return string(b)
 }
 
 func doFormat(format styleFormat, content string) (string, error) {
